@@ -104,7 +104,7 @@ def e_step(data, means):
     )
 
 
-def m_step(stats, n_samples):
+def m_step(stats, n_samples, means=None):
     """Computes the cluster centers and average minimum distance.
 
     Parameters
@@ -133,8 +133,14 @@ def m_step(stats, n_samples):
         average_min_distance += average_
     average_min_distance /= n_samples
 
-    means = first_order_statistics / zeroeth_order_statistics[:, None]
-    return means, average_min_distance
+    empty = zeroeth_order_statistics == 0
+    new_means = first_order_statistics / np.where(
+        empty, 1, zeroeth_order_statistics
+    )[:, None]
+    if means is not None and empty.any():
+        # Keep the previous centroid of a cluster that attracted no sample
+        new_means[empty] = np.asarray(means)[empty]
+    return new_means, average_min_distance
 
 
 def accumulate_indices_means_vars(data, means):
@@ -168,8 +174,10 @@ def reduce_indices_means_vars(stats):
     n_clusters = len(means_sum)
     weights_count = np.bincount(closest_centroid_indices, minlength=n_clusters)
     weights = weights_count / weights_count.sum()
-    means = means_sum / weights_count[:, None]
-    variances = (variances_sum / weights_count[:, None]) - (means**2)
+    # An empty cluster has zero sums: divide by 1 instead of 0/0
+    safe_count = np.where(weights_count == 0, 1, weights_count)[:, None]
+    means = means_sum / safe_count
+    variances = (variances_sum / safe_count) - (means**2)
 
     return variances, weights
 
@@ -352,12 +360,12 @@ class KMeansMachine(BaseEstimator):
                     dask.delayed(e_step)(xx, means=self.centroids_) for xx in X
                 ]
                 self.centroids_, self.average_min_distance = dask.compute(
-                    dask.delayed(m_step)(stats, n_samples)
+                    dask.delayed(m_step)(stats, n_samples, self.centroids_)
                 )[0]
             else:
                 stats = [e_step(X, means=self.centroids_)]
                 self.centroids_, self.average_min_distance = m_step(
-                    stats, n_samples
+                    stats, n_samples, self.centroids_
                 )
 
             distance = self.average_min_distance
